@@ -89,14 +89,16 @@ def run(binary, steps, env=None, settle=3.0, final_stop=True):
                     pass
         return lines
 
-    def fence():
-        """isready -> readyok; returns (answered, []).  An unanswered isready is probed a second time before the engine
-        is declared wedged (a loaded machine must not look like a wedged engine)."""
+    def fence(target=None):
+        """isready -> readyok; returns (answered, []).  `target` is given when the command just sent was itself an
+        isready (its own readyok is the fence; a second isready would leave a stray readyok behind and shift every
+        later fence by one).  An unanswered isready is probed a second time before the engine is declared wedged."""
         for attempt in (0, 1):
-            with s.lock:
-                target = s.ready_count + 1
-            if not s.send("isready"):
-                return False, []
+            if target is None or attempt == 1:
+                with s.lock:
+                    target = s.ready_count + 1
+                if not s.send("isready"):
+                    return False, []
             if s.wait_until(lambda: s.ready_count >= target, READY_TIMEOUT):
                 return True, []
             if not s.alive():
@@ -121,6 +123,7 @@ def run(binary, steps, env=None, settle=3.0, final_stop=True):
                   "best_seen": before_best}
             with s.lock:
                 cmd_mark = len(s.out)
+                own_target = s.ready_count + 1 if kind == "isready" else None
             ok = s.send(cmd)
             ev["delivered"] = ok
             ev["refused"] = False
@@ -133,7 +136,7 @@ def run(binary, steps, env=None, settle=3.0, final_stop=True):
                     ev["fen"] = ["startpos"] if pp[0] == "startpos" else list(pp[0])
                     ev["pre"] = pp[1]
             if not st.get("nofence") and kind != "quit":
-                answered, _ = fence()
+                answered, _ = fence(own_target)
                 ev["ready"] = answered
                 with s.lock:
                     lines = [l for _, l in s.out[cmd_mark:]]
@@ -167,6 +170,28 @@ def run(binary, steps, env=None, settle=3.0, final_stop=True):
             ok = s.wait_until(lambda: s.best_count >= want, st["waitbest"])
             pump()
             events.append({"ev": "waited", "ok": ok, "t": int((time.time() - s.t0) * 1000)})
+        elif "burst" in st:
+            # N isready commands at once (while a search prints its lines): every one must come back as a line
+            # that is exactly `readyok`; a reply glued into another line is counted separately
+            n = st["burst"]
+            with s.lock:
+                mark = len(s.out)
+                target = s.ready_count + n
+            for _ in range(n):
+                if not s.send("isready"):
+                    break
+            okb = s.wait_until(lambda: s.ready_count >= target, READY_TIMEOUT)
+            time.sleep(0.05)
+            with s.lock:
+                lines = [l for _, l in s.out[mark:]]
+            glued = [l for l in lines if "readyok" in l and l != "readyok"]
+            events.append({"ev": "burst", "sent": n, "clean": sum(1 for l in lines if l == "readyok"), "glued": glued[:5], "nglued": len(glued),
+                           "complete": okb})
+            if not okb:
+                # make up for replies that were glued so that later fences still count correctly
+                with s.lock:
+                    s.ready_count = target
+            pump()
         elif "sleep" in st:
             time.sleep(st["sleep"])
             pump()
